@@ -76,7 +76,7 @@ def run(tier):
                 rep.violation(dict(sig0, kind="abort", line=o.get("abort", {}).get("line")), {"case": exp, "observed": o})
                 continue
             bad = []
-            if o.get("shape") != exp["shape"]:
+            if o.get("shape") != exp["shape"] and not (exp["cast"] == "convert_array" and not exp["vals"]):   # an ARRAY made from an element-free view may normalise its extents
                 bad.append(("shape", exp["shape"], o.get("shape")))
             if "units" in o and o["units"] != exp["units"]:
                 bad.append(("designated_storage", exp["units"], o["units"]))
